@@ -124,7 +124,7 @@ pub fn cases(ctx: &Ctx) -> Vec<Case> {
     let mut rng = Rng::derive(ctx.seed, &[0xC07]);
     let mut v = Vec::new();
     if k.is_prod() {
-        let (n, procs, per) = if ctx.quick() { (600, 16, 12) } else { (6000, 48, 60) };
+        let (n, procs, per) = if ctx.quick() { (600, 16, 12) } else { (30000, 128, 120) };
         for layers in [1u8, 3] {
             for nrecip in [1usize, 3] {
                 v.push(Case::Fresh { n, procs, per_proc: per, layers, nrecip });
@@ -148,9 +148,9 @@ pub fn cases(ctx: &Ctx) -> Vec<Case> {
     // scans: every append size class, flushes in between, both encrypted combos
     let nscan = match (k.is_prod(), ctx.quick()) {
         (true, true) => 500,
-        (true, false) => 8000,
+        (true, false) => 30000,
         (false, true) => 600,
-        (false, false) => 10000,
+        (false, false) => 40000,
     };
     let mut sizes = vec![Sz::lit(1), Sz::lit(2), Sz::lit(15), Sz::lit(16), Sz::lit(17), Sz::lit(24), Sz::lit(100), Sz::lit(4095), Sz::lit(4096), Sz::lit(4097), Sz::new(0, 1, -1), Sz::new(0, 1, 0), Sz::new(0, 1, 1)];
     if !k.is_prod() {
